@@ -28,7 +28,9 @@ def lifespan_scenarios(rng, n, starve=True):
         elif starve and rng.random() < .5:
             # the thread that restarts workers is held up right when it starts the replacement: the new instance runs (and the death
             # watch looks at the slot) before the restart is finished
-            sc['rules'] = [{'role': 'restart_handler', 'op': 'start', 'obj': None, 'sleep': rng.choice([0.05, 0.15, 0.3]), 'p': .7}]
+            sc['rules'] = [rng.choice([{'role': 'restart_handler', 'op': 'start', 'obj': None, 'sleep': rng.choice([0.05, 0.15, 0.3]), 'p': .7},
+                                       # … or at whatever shared flag it (or the worker object it is constructing) writes
+                                       {'role': 'restart_handler', 'op': 'array.set+', 'obj': None, 'sleep': rng.choice([0.15, 0.3]), 'p': .7}])]
         scs.append(sc)
     return scs
 
